@@ -17,7 +17,7 @@ An estimator object is modelled by what its public methods read and write:
   `history_independent` in `Props/C11.lean`).  Six zEpid classes had such state (`_exp_model_custom` &c. of AIPTW and
   TMLE, `_specified_bound_` of StochasticTMLE, `_scipy_solver_obj` of GEstimationSNM, the overwritten
   `self.missing` of IPMW, `predicted_df` of TimeFixedGFormula after `fit_stochastic`); they were repaired in zEpid
-  and the registers were deleted from the tables below: all sixteen tables are now `clean`.
+  and the registers were deleted from the tables below: all tables are now `clean`.
 
 `step` returns the new state and the outcome: `error` (the call raises) or `ok` with the *effective
 configuration* — the short canonical call list that determines the state the call leaves behind — and the list of
@@ -192,6 +192,8 @@ def specRIf (k r : Nat) (avail : Bool) : Sig := { writes := some k, sticky := so
 def fitS (req : List Nat) : Sig := { isFit := true, req := req }
 def readS (req : List Nat) : Sig := { req := req }
 def resS : Sig := { needsFit := true }
+/-- a result method that also tests some slots itself (implied by `needsFit` whenever every fit requires them) -/
+def resG (req : List Nat) : Sig := { needsFit := true, req := req }
 
 /-- IPTW: slots 0 treatment_model, 1 missing_model, 2 marginal_structural_model -/
 def iptw (miss : Bool) : Cls := ⟨3, 0, [
@@ -220,7 +222,7 @@ def aiptw (miss : Bool) : Cls := ⟨3, 0, [
   specIf 1 miss,        -- 1 missing_model
   spec 2,               -- 2 outcome_model
   fitS [0, 2],          -- 3 fit
-  resS,                 -- 4 summary
+  resG [0],             -- 4 summary (explicit guard on the exposure model only; the results are None before fit)
   readS [0, 2],         -- 5 run_diagnostics
   readS [0],            -- 6 positivity
   readS [0],            -- 7 standardized_mean_differences
@@ -232,7 +234,7 @@ def aiptw (miss : Bool) : Cls := ⟨3, 0, [
 def tmle (miss : Bool) : Cls := ⟨3, 0, [
   spec 0, specIf 1 miss, spec 2,
   fitS [0, 2],          -- 3 fit
-  resS,                 -- 4 summary
+  resG [0],             -- 4 summary (as AIPTW)
   readS [0, 2],         -- 5 run_diagnostics
   readS [0],            -- 6 positivity
   readS [0],            -- 7 standardized_mean_differences
@@ -287,10 +289,14 @@ def ipcw : Cls := ⟨1, 0, [spec 0, fitS [0]]⟩
 
 /-- MonteCarloGFormula: slots 0 exposure_model, 1 outcome_model, 2 censoring_model, 3 add_covariate_model (one
     label, added once: the method appends, it does not respecify) -/
-def monteCarlo : Cls := ⟨4, 0, [spec 0, spec 1, spec 2, spec 3, fitS [1, 0]]⟩
+def monteCarlo : Cls := ⟨4, 0, [spec 0, spec 1, spec 2, spec 3, fitS [0, 1]]⟩
 
 /-- IterativeCondGFormula: slot 0 outcome_model -/
 def iterCond : Cls := ⟨1, 0, [spec 0, fitS [0]]⟩
+
+/-- the four cross-fit estimators (Single/Double Crossfit AIPTW/TMLE): slots 0 exposure_model, 1 outcome_model;
+    `summary` tests both models itself and prints results that are `None` before a fit -/
+def crossfit : Cls := ⟨2, 0, [spec 0, spec 1, fitS [0, 1], resG [0, 1]]⟩
 
 def clsByName (name : String) (miss : Bool) : Option Cls :=
   match name with
@@ -310,6 +316,10 @@ def clsByName (name : String) (miss : Bool) : Option Cls :=
   | "IPCW" => some ipcw
   | "MonteCarloGFormula" => some monteCarlo
   | "IterativeCondGFormula" => some iterCond
+  | "SingleCrossfitAIPTW" => some crossfit
+  | "DoubleCrossfitAIPTW" => some crossfit
+  | "SingleCrossfitTMLE" => some crossfit
+  | "DoubleCrossfitTMLE" => some crossfit
   | _ => none
 
 end ZV.History
